@@ -1,0 +1,9 @@
+//go:build verif && (!gc || purego || !amd64)
+
+package chacha20poly1305
+
+// VerifSetAVX2 is a no-op on builds without the amd64 assembly.
+func VerifSetAVX2(on bool) (old bool) { return false }
+
+// VerifHasAsm reports whether this build contains the amd64 assembly path.
+const VerifHasAsm = false
